@@ -2965,6 +2965,84 @@ Section Scan.
       cbn [step_op]. rewrite F2, Hf. cbn [orb]. destruct (dropped wf) eqn:Ed; [intros X; congruence|].
       intros Hd. rewrite (poll_unfinished wf _ _ L2 ltac:(apply I2) Hfin Hd). congruence.
     Qed.
+    (* in general: a poll that has not unwound finishes the combinator only by returning a final result *)
+    Lemma poll_finished_cases w pid np : LiveI w -> Q (cs w) -> dropped w = false -> dropped (poll w pid np) = false ->
+      finished (poll w pid np) = finished w \/ exists u o, final o = true /\ tr (poll w pid np) = tr w ++ u ++ [EEndR o].
+    Proof.
+      intros HL HQ Hd0. pose proof HL as (Hsel & _).
+      destruct (g_retpend (poll w pid np)) eqn:Er.
+      - (* Pending: nothing is marked *)
+        intros Hd. left. revert Er Hd. unfold poll.
+        assert (Hmf : forall w1 o, g_retpend (mark_final w1 o) = g_retpend w1) by (intros w1 o; unfold mark_final; destruct (final o); reflexivity).
+        destruct (pre_exit (cs w)) as [o|]; [rewrite Hmf; cbn; intros; discriminate|].
+        set (w0 := begin_poll w pid np).
+        assert (HL0 : LiveI w0) by (apply (LiveI_frame w); auto).
+        destruct (pre_any (cs w0) && negb (any_ready w0)); [reflexivity|].
+        destruct (order (cs w0)) as [[is s1]|] eqn:Eo; [|unfold unwind; cbn; intros; discriminate].
+        assert (HL1 : LiveI (set_cs w0 s1)) by (apply LiveI_cs; [apply (order_slots _ _ _ Eo)|apply (order_stable (cs w0) is s1 HQ Eo)|exact HL0]).
+        assert (HQ1 : Q (cs (set_cs w0 s1))) by (cbn; eapply Q_order; eauto).
+        assert (Hin : forall i, In i is -> i < N (set_cs w0 s1)).
+        { intros i Hi. unfold N; cbn. rewrite (order_slots (cs w0) is s1 Eo). apply (order_bound (cs w0) is s1 HQ Eo i Hi). }
+        destruct (scan_live is (set_cs w0 s1) pid HL1 HQ1 Hin) as [(_ & _ & _ & _ & S4 & _) _].
+        destruct (scan (set_cs w0 s1) is pid) as [w1|w1|w1 o|w1]; cbn [vworld] in S4.
+        + destruct (finish (cs w1)) as [s2 [x|]]; rewrite ?Hmf; cbn; intros; [discriminate|exact S4].
+        + cbn. intros _ _. exact S4.
+        + rewrite Hmf. cbn. intros; discriminate.
+        + unfold unwind; cbn; intros; discriminate.
+      - intros Hd. destruct (poll_result_ext w pid np Hsel Hd0 Er Hd) as (u & o & Hu).
+        destruct (final o) eqn:Ef; [right; exists u, o; split; [exact Ef|exact Hu]|]. left.
+        (* the result was not final: mark_final left the flag alone *)
+        revert Hu Hd. unfold poll.
+        assert (Hmf : forall w1 o', tr (mark_final w1 o') = tr w1) by (intros w1 o'; unfold mark_final; destruct (final o'); reflexivity).
+        assert (Hlast : forall (t: list ev) a b x y, t ++ a ++ [EEndR x] = t ++ b ++ [EEndR y] -> x = y).
+        { intros t a b x y E. apply app_inv_head in E. assert (E' : last (a ++ [EEndR x]) EO = last (b ++ [EEndR y]) EO) by (rewrite E; reflexivity).
+          rewrite !last_last in E'. inversion E'. reflexivity. }
+        assert (Hmk : forall w1 o', tr w1 ++ [EEndR o'] = tr w ++ u ++ [EEndR o] -> finished (mark_final (set_ret (emit w1 [EEndR o']) false) o') = finished w1).
+        { intros w1 o' E. assert (o' = o).
+          { assert (E' : last (tr w1 ++ [EEndR o']) EO = last (tr w ++ u ++ [EEndR o]) EO) by (rewrite E; reflexivity).
+            rewrite app_assoc, !last_last in E'. inversion E'. reflexivity. }
+          subst o'. unfold mark_final. rewrite Ef. reflexivity. }
+        destruct (pre_exit (cs w)) as [o'|].
+        { rewrite Hmf. cbn [tr set_ret emit set_np]. intros E _.
+          assert (o' = o).
+          { assert (E' : last (tr w ++ [EB pid; EEndR o']) EO = last (tr w ++ u ++ [EEndR o]) EO) by (rewrite E; reflexivity).
+            change [EB pid; EEndR o'] with ([EB pid] ++ [EEndR o']) in E'. rewrite !app_assoc, !last_last in E'. inversion E'. reflexivity. }
+          subst o'. unfold mark_final. rewrite Ef. reflexivity. }
+        set (w0 := begin_poll w pid np).
+        assert (HL0 : LiveI w0) by (apply (LiveI_frame w); auto).
+        destruct (pre_any (cs w0) && negb (any_ready w0)); [reflexivity|].
+        destruct (order (cs w0)) as [[is s1]|] eqn:Eo; [|unfold unwind; cbn; intros; discriminate].
+        assert (HL1 : LiveI (set_cs w0 s1)) by (apply LiveI_cs; [apply (order_slots _ _ _ Eo)|apply (order_stable (cs w0) is s1 HQ Eo)|exact HL0]).
+        assert (HQ1 : Q (cs (set_cs w0 s1))) by (cbn; eapply Q_order; eauto).
+        assert (Hin : forall i, In i is -> i < N (set_cs w0 s1)).
+        { intros i Hi. unfold N; cbn. rewrite (order_slots (cs w0) is s1 Eo). apply (order_bound (cs w0) is s1 HQ Eo i Hi). }
+        destruct (scan_live is (set_cs w0 s1) pid HL1 HQ1 Hin) as [(_ & _ & _ & _ & S4 & _) _].
+        destruct (scan (set_cs w0 s1) is pid) as [w1|w1|w1 o'|w1]; cbn [vworld] in S4.
+        + destruct (finish (cs w1)) as [s2 [x|]]; [|cbn; intros _ _; exact S4].
+          rewrite Hmf. cbn [tr set_ret emit set_cs]. intros E _. rewrite (Hmk (set_cs w1 s2) x E). exact S4.
+        + cbn. intros _ _. exact S4.
+        + rewrite Hmf. cbn [tr set_ret emit set_cs]. intros E _. rewrite (Hmk (set_cs w1 (after_stop (cs w1))) o' E). exact S4.
+        + unfold unwind; cbn; intros; discriminate.
+    Qed.
+    Lemma round_finished_cases w : Inv w -> LiveI w -> finished w = false -> dropped w = false -> dropped (round w) = false ->
+      finished (round w) = false \/ exists u o, final o = true /\ tr (round w) = tr w ++ u ++ [EEndR o].
+    Proof.
+      intros HI HL Hf Hd0. unfold round, run_ops. rewrite fold_left_app. cbn [fold_left].
+      destruct (run_fires (seq 0 (N w)) w w HI HL eq_refl eq_refl) as (I2 & L2 & C2 & S2 & H2 & P2 & D2 & F2 & M2 & B2 & [x Hx]).
+      unfold run_ops in *. set (wf := fold_left step_op (fair_fires w (seq 0 (N w))) w) in *.
+      cbn [step_op]. rewrite F2, D2, Hf, Hd0. cbn [orb]. intros Hd.
+      match goal with |- context[poll wf ?a ?b] => destruct (poll_finished_cases wf a b L2 ltac:(apply I2) ltac:(congruence) Hd) as [E|(u & o & Ho & Hu)] end.
+      - left. congruence.
+      - right. exists (x ++ u), o. split; [exact Ho|]. rewrite Hu, Hx, <- !app_assoc. reflexivity.
+    Qed.
+    Lemma round_dropped w : dropped w = true -> dropped (round w) = true.
+    Proof.
+      intros Hd. unfold round, run_ops. rewrite fold_left_app. cbn [fold_left].
+      assert (H : forall l w1, dropped w1 = true -> dropped (fold_left step_op (map (fun c => OFire (member (cs w) c) (latest w (member (cs w) c))) l) w1) = true).
+      { induction l as [|c l IH]; intros w1 H1; [exact H1|]. cbn [map fold_left]. apply IH.
+        destruct (fire_step_frame w1 (member (cs w) c) (latest w (member (cs w) c))) as (_ & _ & _ & _ & _ & F & _). rewrite F. exact H1. }
+      specialize (H (seq 0 (N w)) w Hd). unfold fair_fires. cbn [step_op]. rewrite H, orb_true_r. exact H.
+    Qed.
     Lemma rounds_add a : forall b w, rounds (a + b) w = rounds b (rounds a w).
     Proof. induction a as [|a IH]; intros b w; [reflexivity|]. cbn [Nat.add rounds]. apply IH. Qed.
 
